@@ -180,7 +180,30 @@ class ExprMixin:
                     out = ite_val(c, out, v) if is_and else ite_val(c, v, out)
                 yield st, out
             return
+        # operands that are total, effect-free booleans: one term instead of one path per short-circuit outcome
+        terms = []
+        ok = True
+        if ok:
+            s2 = st.clone()
+            try:
+                vals = []
+                for v in node.values:
+                    res = list(self.ev(v, s2))
+                    if len(res) != 1 or isinstance(res[0][1], Raise) or res[0][0] is not s2:
+                        ok = False
+                        break
+                    vals.append(res[0][1])
+                if ok and len(s2.pc) == len(st.pc) and s2.written == st.written and len(s2.log) == len(st.log) and \
+                        all(isinstance(x, Val) and isinstance(x.ty, TBool) for x in vals):
+                    yield st, mk_bool((z3.And if is_and else z3.Or)([x.t for x in vals]))
+                    return
+            except Unsupported:
+                pass
         yield from self._boolop(node.values, is_and, st)
+
+    def _benign(self, n):
+        """sub-expressions that neither raise nor change state: names, attribute reads of plain fields are decided at run time by ev"""
+        return isinstance(n, ast.Attribute) and isinstance(n.value, ast.Name)
 
     def _boolop(self, values, is_and, st):
         for st1, v in self.ev(values[0], st):
